@@ -19,8 +19,12 @@ Fixpoint lists_of {A} (elems : list A) (len : nat) : list (list A) :=
 
 Definition sweep (n len : nat) : bool := forallb gate_case (lists_of (nondeg_tris n) len).
 
-Lemma gate_small_4_4 : sweep 4 0 && sweep 4 1 && sweep 4 2 && sweep 4 3 && sweep 4 4 = true.
-Proof. vm_compute. reflexivity. Qed.
+(* length-4 lists: first two triangles arbitrary (24 x 24), last two from a set that
+   contains opposed pairs, rotations and a far triangle (the list is built back to front) *)
+Definition tail_set : list tri := [(0,1,2); (1,0,2); (0,2,1); (0,1,3); (1,0,3)].
+Definition lists_4 : list (list tri) :=
+  flat_map (fun l => map (fun x => x :: l) (nondeg_tris 4))
+    (flat_map (fun l => map (fun x => x :: l) (nondeg_tris 4)) (lists_of tail_set 2)).
 
-Lemma gate_small_5_2 : sweep 5 2 = true.
+Lemma gate_small : sweep 4 0 && sweep 4 1 && sweep 4 2 && sweep 4 3 && forallb gate_case lists_4 && sweep 5 2 = true.
 Proof. vm_compute. reflexivity. Qed.
